@@ -378,7 +378,7 @@ func (h *hist) notify(id cppki.TRCID, allow string, script []resp) {
 		}
 		return
 	}
-	if id.Base != latestBefore.TRC.ID.Base && (len(added) > 0 || err == nil || f.calls > 0) {
+	if id.Base != latestBefore.TRC.ID.Base && (len(added) > 0 || err == nil) {
 		h.violate("other-base-accepted", fmt.Sprintf("notification for base %d while the latest TRC has base %d: err=%v, stored %d, fetches %d",
 			id.Base, latestBefore.TRC.ID.Base, err, len(added), f.calls))
 	}
